@@ -290,3 +290,9 @@ pub use wasm::RegExpBuilder as WasmRegExpBuilder;
 
 #[cfg(grex_verif)]
 pub mod verif_hooks;
+
+// Compiles the WebAssembly wrapper for the native target so that external
+// verification tooling can drive it against a stand-in for wasm-bindgen.
+#[cfg(all(grex_verif, not(target_family = "wasm")))]
+#[path = "wasm.rs"]
+pub mod verif_wasm;
